@@ -2334,24 +2334,24 @@ func ruleTokenSource(c *Ctx, r *Rep) {
 
 func init() {
 	add := map[string]string{
-		"C01": " Lowering templates (R-C01-template): for 24 lowering functions and every AST shape class, the emitted code is stack/path/exp-consistent with sub-query holes of the declared net effect; every variable slot a sub-query can resolve is stored on every path reaching it; after an abandoned ?// alternative (error in the pattern or in the body) and after the source generator resumes, every pattern variable is null or bound by the matching alternative; sub-queries jq scopes separately are compiled in disjoint scope-depth regions; every sub-query hole consumes the value jq prescribes (the construct's input, or the left side's output for a pipe). The stacks' persistence limit is consulted only by the stacks' methods and popscope (R-C20-limitowner); HaltError passes every interception site (R-C15-haltthrough).",
+		"C01": " Lowering templates (R-C01-template): for 24 lowering functions and every AST shape class, the emitted code is stack/path/exp-consistent with sub-query holes of the declared net effect; every variable slot a sub-query can resolve is stored on every path reaching it; after an abandoned ?// alternative (error in the pattern or in the body) and after the source generator resumes, every pattern variable is null or bound by the matching alternative; sub-queries jq scopes separately are compiled in disjoint scope-depth regions; every sub-query hole consumes the value jq prescribes (the construct's input, or the left side's output for a pipe). The stacks' persistence limit is consulted only by the stacks' methods and popscope (R-C20-limitowner); HaltError passes every interception site (R-C15-haltthrough). Every integer field of env that forward execution changes is in the fork snapshot (R-C01-forkcover); a scope's variable counter only grows (R-C01-slotmonotone); compileFunc consults the user's scopes before any name-specific return (R-C01-lookupfirst); function names the compiler synthesises for internally applied conversions are in the reserved namespace (R-C01-internalname).",
 		"C02": " The lowering templates of the path-related constructs are verified by R-C01-template; the allocator's ownership set only receives containers made by the registering function (R-C05-allocown).",
-		"C04": " The emission-time optimisations (argument inlining cases 2 and 3, constant results of if, expbegin removal in compileBind, path(f) call replacement) are executed symbolically by R-C01-template and their results verified for every shape class; optimizeTailRec's function stack is pushed and popped symmetrically (R-C20-pcsbalance).",
-		"C05": " Mutating *big.Int methods only write receivers allocated in the same function (R-C05-bigfresh); the allocator's ownership set only receives containers made by the registering function (R-C05-allocown).",
-		"C06": " (*regexp.Regexp).Longest is never called on a cached regexp (R-C06-regexpmut); option closures capture no variable they write (R-C19-optioncapture); big.Int receivers fresh (R-C05-bigfresh).",
+		"C04": " The emission-time optimisations (argument inlining cases 2 and 3, constant results of if, expbegin removal in compileBind, path(f) call replacement) are executed symbolically by R-C01-template and their results verified for every shape class; optimizeTailRec's function stack is pushed and popped symmetrically (R-C20-pcsbalance). Compile-time results of functions that return errors as values are tested before they become operands (R-C04-foldresult); no emitted opjumpifnot targets its successor and no lowering code asserts an operand type it did not emit (template checks).",
+		"C05": " Mutating *big.Int methods only write receivers allocated in the same function (R-C05-bigfresh); the allocator's ownership set only receives containers made by the registering function (R-C05-allocown). User callbacks only receive an argument slice of their own (R-C05-argsview); nothing returned aliases an object given back to a sync.Pool (R-C06-poolalias).",
+		"C06": " (*regexp.Regexp).Longest is never called on a cached regexp (R-C06-regexpmut); option closures capture no variable they write (R-C19-optioncapture); big.Int receivers fresh (R-C05-bigfresh). Nothing returned aliases a pooled object (R-C06-poolalias); struct types published in a sync.Map have no field assigned after construction (R-C06-cacheimmut).",
 		"C07": " The context polled is the caller's: RunWithContext passes its parameter itself to newEnv, which stores it; nothing else writes env.ctx (R-C07-ctxidentity).",
-		"C08": " Range-over-func bodies never yield again after a discarded yield result (R-C08-yield); a slice indexed under another slice's bounds is related to it by construction, by a dominating length comparison, or at every call site (R-C08-parallel).",
-		"C09": " No printer method reaches the value-level encoder, a toValue conversion or number normalisation (R-C09-printsyntactic).",
-		"C10": " Unary minus on an int from a parameter or type-switch binding is dominated by a MinInt exit (R-C10-negate); a value decoded by a third-party decoder that builds json.Number from unvalidated text is rewritten before it leaves the input iterator (R-C10-foreignnumber); no operand of Compare went through toFloat/toInt (R-C11-lossycompare).",
-		"C11": " No operand of Compare is the result of a lossy numeric conversion made in the calling function (R-C11-lossycompare).",
+		"C08": " Range-over-func bodies never yield again after a discarded yield result (R-C08-yield); a slice indexed under another slice's bounds is related to it by construction, by a dominating length comparison, or at every call site (R-C08-parallel). Compile-time fold results are tested for error (R-C04-foldresult); fixed-size arrays indexed under a slice's bounds have an explicit bound test (R-C08-parallel); -Rs looks for an error before asserting string (R-C08-assert/errorfirst).",
+		"C09": " No printer method reaches the value-level encoder, a toValue conversion or number normalisation (R-C09-printsyntactic). No grammar action returns a package-level node (R-C09-freshnode).",
+		"C10": " Unary minus on an int from a parameter or type-switch binding is dominated by a MinInt exit (R-C10-negate); a value decoded by a third-party decoder that builds json.Number from unvalidated text is rewritten before it leaves the input iterator (R-C10-foreignnumber); no operand of Compare went through toFloat/toInt (R-C11-lossycompare). Machine-integer arithmetic inside the float and big callbacks is held to the same guard rules, and (*big.Int).Int64 is only called under IsInt64 (R-C10-guard, R-C10-bigdemote).",
+		"C11": " No operand of Compare is the result of a lossy numeric conversion made in the calling function (R-C11-lossycompare). Every return of Compare is the binopTypeSwitch dispatch (R-C11-comparedispatch); slices.MaxFunc is refused for jq's max (R-C11-stable).",
 		"C12": " Output encoders are never stored in a field of the cli value or a package variable (R-C12-encoderfresh); YAML number spellings are normalised before they can be printed (R-C10-foreignnumber).",
-		"C13": " The native codec halves apply no lossy text transformation beyond the enumerated '+'/%20 fix-ups (R-C13-lossless).",
+		"C13": " The native codec halves apply no lossy text transformation beyond the enumerated '+'/%20 fix-ups (R-C13-lossless). No native uses the zero time.Time as a sentinel (R-C13-zerotime).",
 		"C14": " Matching methods of *regexp.Regexp are called only from funcMatch or functions only it calls (R-C14-findsingle).",
-		"C15": " Every VM clause that intercepts an error lets *HaltError through first (R-C15-haltthrough); encoders are per use (R-C12-encoderfresh).",
-		"C16": " A reader that may be stdin is closed only under a test that it is not stdin (R-C16-stdinclose); nothing reachable from slurpFile reads the input-format flags (R-C16-slurpjson).",
-		"C17": " On every path of Lex/scanString returning a multi-byte kind l.token is assigned in that call (R-C17-tokenfresh); every stored token is a slice of the source or a constant (R-C17-tokensource); functions reading with (*json.Decoder).Token reconcile its offset convention with Decode's (R-C17-tokenoffset; value errors under --stream: known finding D21b).",
+		"C15": " Every VM clause that intercepts an error lets *HaltError through first (R-C15-haltthrough); encoders are per use (R-C12-encoderfresh). The status recorded by the input loop is always the current error itself (R-C15-haltstatus); a failed slurp stays failed (R-C16-sticky).",
+		"C16": " A reader that may be stdin is closed only under a test that it is not stdin (R-C16-stdinclose); nothing reachable from slurpFile reads the input-format flags (R-C16-slurpjson). The query file's text is used as read (R-C16-fileverbatim); no stale copy of the top of the --stream state stack is read after a push (R-C16-staletop).",
+		"C17": " On every path of Lex/scanString returning a multi-byte kind l.token is assigned in that call (R-C17-tokenfresh); every stored token is a slice of the source or a constant (R-C17-tokensource); functions reading with (*json.Decoder).Token reconcile its offset convention with Decode's (R-C17-tokenoffset; value errors under --stream: known finding D21b). Positions counted in characters by a dependency are converted to bytes before the caret computation (R-C17-charindex).",
 		"C19": " The closure an option constructor returns writes no captured local of the constructor (R-C19-optioncapture).",
-		"C20": " optimizeTailRec pushes at every opscope and pops at every opret (R-C20-pcsbalance); the frame-release decision has one site (R-C20-limitowner).",
+		"C20": " optimizeTailRec pushes at every opscope and pops at every opret (R-C20-pcsbalance); the frame-release decision has one site (R-C20-limitowner). In opscope env.offset is read only after the frame-replacing popscope (R-C20-scopeorder); env.offset is part of the fork snapshot (R-C01-forkcover).",
 	}
 	for id, text := range add {
 		if p := props[id]; p != nil {
